@@ -94,13 +94,23 @@ let handle (fs : string list) : string =
                 g_autofootnotes = af; g_footnotes = mf;
                 g_autofootnote_refs = List.filter (fun r -> r.r_auto) rfs;
                 g_footnote_refs = frefs; g_allrefs = rfs; g_nrefs = nat_of_int (List.length rfs); g_warn = [] } in
-      (match docutils_footnotes { s_regs = g; s_manual = []; s_auto = []; s_layout = []; s_warn = [] } with
+      let s0 = { s_regs = g; s_manual = []; s_auto = []; s_layout = []; s_warn = [] } in
+      let a = (match docutils_footnotes s0 with
        | Raise e -> "!" ^ exn_name e
        | Ok st ->
            let foots = st.s_manual @ st.s_auto in
            String.concat " # " [
              join " " show_rout (List.map (ref_out foots) rfs); join " " show_fout foots;
-             join " " show_warn st.s_warn ])
+             join " " show_warn st.s_warn ]) in
+      (* the same registry through the definition translated from the installed docutils source *)
+      let b = (match footnotes_apply_src (ds_init g) with
+       | Raise e -> "!" ^ exn_name e
+       | Ok ds ->
+           let st = project s0 ds in
+           String.concat " # " [
+             join " " show_rout (List.map (ref_result ds) rfs); join " " show_fout (st.s_manual @ st.s_auto);
+             join " " show_warn st.s_warn ]) in
+      a ^ " ## " ^ b
   | _ -> "!badcmd"
 
 let () = main handle
